@@ -397,6 +397,13 @@ pub fn gen_line(rng: &mut Rng, ver: &str, mode: u64, w: &mut CaseWriter) {
             })
             .collect();
     }
+    if nsamples > 0 && rng.chance(1, 10) {
+        // samples without FORMAT keys: written ". . .", read back by both readers (6449b9b)
+        c.keys.clear();
+        for r in c.samples.iter_mut() {
+            r.clear();
+        }
+    }
     let mut valid = true;
     let mut ns_hdr = nsamples;
     if edge {
